@@ -31,7 +31,9 @@ func main() {
 
 func validCase(c *core.Ctx, class string, va, vb uint64, now int64) {
 	var res bool
-	if p, msg := core.Guard(func() { res = certutil.ValidateSSHCertTime(&ssh.Certificate{ValidAfter: va, ValidBefore: vb}, time.Unix(now, 0)) }); p {
+	if p, msg := core.Guard(func() {
+		res = certutil.ValidateSSHCertTime(&ssh.Certificate{ValidAfter: va, ValidBefore: vb}, time.Unix(now, 0))
+	}); p {
 		c.Native("panic in ValidateSSHCertTime: "+msg, fmt.Sprint(va, vb, now))
 		return
 	}
@@ -97,6 +99,52 @@ func run(c *core.Ctx) {
 	plans = append(plans, shimsim.ScenarioPlans(r, pool, c.N(40, 800))...)
 	for i, n := 0, c.N(110, 2200); i < n; i++ {
 		plans = append(plans, shimsim.GenPlan(r, pool, mixed, "windows"))
+	}
+	// a misbehaving underlying agent: it refuses a removal (a read-only agent, a hardware token, a denied
+	// confirmation), answers with garbage or hangs up - in the middle of List / Signers / Sign.  Whatever listing is
+	// still returned, and whatever is still signed with, must be inside its validity window.
+	op := func(k shimsim.OpKind, b uint64) *shimsim.Op { return &shimsim.Op{Kind: k, Blob: b} }
+	nk := len(pool.Keys)
+	for i, n := 0, c.N(24, 300); i < n; i++ {
+		k := uint64(1 + r.Intn(nk))
+		k2 := uint64(1 + (int(k)+r.Intn(nk-1))%nk)
+		p := &shimsim.Plan{Class: "agent-refuses-removal", NoUp: r.Intn(2) == 0, Comp: core.Pick(r, 0, 1, 2),
+			Data: map[uint64][]byte{1: []byte("data-1"), 2: []byte("data-2"), 3: []byte("data-3")}}
+		kid := func() (string, string) { return shimsim.GenKeyID(r) }
+		t1, k1 := kid()
+		t2, kk2 := kid()
+		t3, k3 := kid()
+		bad := func() string { return core.Pick(r, "past", "future", "zero", "one-second-ago", "inverted") }
+		e := shimsim.CertSpec{ID: pool.ReserveID(), KeyID: k2, Window: bad(), KidText: t1, KidKind: k1}
+		e2 := shimsim.CertSpec{ID: pool.ReserveID(), KeyID: k, Window: bad(), KidText: t2, KidKind: kk2}
+		g := shimsim.CertSpec{ID: pool.ReserveID(), KeyID: k, Window: core.Pick(r, "current", "forever"), KidText: t3, KidKind: k3}
+		p.Certs = []shimsim.CertSpec{e, e2, g}
+		p.Initial = []uint64{k, e.ID, g.ID}
+		if r.Intn(2) == 0 {
+			p.Initial = []uint64{e.ID, k, e2.ID, g.ID}
+		}
+		refused := func(o *shimsim.Op, idx int) *shimsim.Op {
+			o.Faults = map[int]shimsim.Fault{idx: {Kind: core.Pick(r, shimsim.FFail, shimsim.FFail, shimsim.FMalformed, shimsim.FWrongType), Exec: false}}
+			return o
+		}
+		sign := func(b uint64, d uint64) *shimsim.Op { return &shimsim.Op{Kind: shimsim.OpSign, Blob: b, DataID: d} }
+		switch i % 4 {
+		case 0:
+			p.Ops = []*shimsim.Op{refused(op(shimsim.OpSigners, 0), 1), op(shimsim.OpList, 0), op(shimsim.OpSigners, 0)}
+		case 1:
+			p.Ops = []*shimsim.Op{refused(sign(e.ID, 1), 1), sign(e.ID, 2), op(shimsim.OpSigners, 0)}
+		case 2:
+			p.Ops = []*shimsim.Op{op(shimsim.OpAddHard, g.ID), refused(op(shimsim.OpList, 0), 1), refused(op(shimsim.OpSigners, 0), 1), refused(sign(e.ID, 1), 1), op(shimsim.OpList, 0)}
+		default:
+			p.Ops = []*shimsim.Op{refused(op(shimsim.OpSigners, 0), 1+r.Intn(2)), refused(sign(core.Pick(r, e.ID, e2.ID), 3), 1+r.Intn(2)), op(shimsim.OpDirectAdd, e2.ID),
+				refused(op(shimsim.OpSigners, 0), 1), op(shimsim.OpSigners, 0), sign(e2.ID, 2)}
+		}
+		plans = append(plans, p)
+	}
+	misbehaving := &shimsim.Cfg{MinOps: 5, MaxOps: 30, Weights: w, FaultPct: 6,
+		FaultOps: map[shimsim.OpKind]int{shimsim.OpList: 25, shimsim.OpSigners: 30, shimsim.OpSign: 30}}
+	for i, n := 0, c.N(60, 1200); i < n; i++ {
+		plans = append(plans, shimsim.GenPlan(r, pool, misbehaving, "agent-misbehaves"))
 	}
 	for _, res := range shimsim.RunAll(pool, plans, 8) {
 		res.Emit(c)
